@@ -9,6 +9,12 @@ X: Model/Costing.v instantiated with binary64 must reproduce ArchSemantics.assig
    curated real vocabulary on every shipped model.  The model's inputs are the results of the look-ups the
    implementation itself performs (harness/c08_cost.observe calls the real get_instruction,
    get_load_throughput, get_store_throughput, _check_operands, get_reg_type).
+Rows (Model/Rows.v, theorems in Props/C08.v from hit_meaning on): every case also carries the RAW load/store tables of the
+   machine model and the memory operands; Coq (a) re-selects the rows with the modelled get_load_throughput /
+   get_store_throughput (matcher = Model/Match.v) and compares them bit for bit with what the implementation's getters
+   returned for every memory operand of the line (with and without source register), and (b) costs the line again from
+   the raw tables alone (cost_line_rows).  harness/c08_rows.row_oracle judges the returned rows against the YAML
+   semantics of the rows (shipped models: the rows of the model FILE, not the loaded tables).
 Search: harness/c08_cost.oracle recomputes the property's union/sum/max/plus rules with exact fractions
    from the look-up results and judges the implementation's output; every line is additionally costed on
    a fresh deep copy of the model (frame: a line's numbers do not depend on what was costed before)."""
@@ -18,6 +24,7 @@ import os
 import vlib
 import c08_cost as C
 import c08_gen as G
+import c08_rows as R
 
 FINISH = dict(level="proof",
               rule="synthetic: random machine models (1-8 ports, load/store tables with 0-6 rows per table typed by dst/src or untyped, "
@@ -151,6 +158,9 @@ def case_key(case):
 def judge(ctx, case, replay):
     for key, text in C.oracle(case):
         ctx.violation(key, "%s %s `%s`: %s" % (case["origin"], case["isa"], case["text"], text), replay)
+    for ob in case.get("rowobs", []):
+        for key, text in R.row_oracle(case["isa"], case["yrows"], ob, case["text"]):
+            ctx.violation(key, "%s %s %s" % (case["origin"], case["isa"], text), replay)
 
 
 def run_shards(ctx, cases, label, shard_size=120):
@@ -161,27 +171,49 @@ def run_shards(ctx, cases, label, shard_size=120):
         shards.append(("%s_%03d" % (label, i // shard_size), C.coq_shard([c for c, _ in grp])))
         groups.append(grp)
     res = ctx.coq_eval_many(shards, timeout=600)
-    nbad, details = 0, []
+    kinds = ["rows looked up by the implementation", "rows selected by Model/Rows.v from the raw tables", "getter answers"]
+    nbad, details = [0, 0, 0], [[], [], []]
+    nrow = 0
+
+    def save(si, b, c, rp, which):
+        d = os.path.join(vlib.VERIF, "replays", ctx.prop)
+        os.makedirs(d, exist_ok=True)
+        with open(os.path.join(d, "disagree-%s-%s-%d-%s.json" % (which, label, si, b)), "w") as f:
+            json.dump({"property": ctx.prop, "key": "correspondence", "replay": rp, "case": c}, f, default=str)
     for si, (ok, out) in enumerate(res):
-        if not ok or not out:
-            nbad += 1
-            details.append("shard %d failed to evaluate: %s" % (si, str(out)[-1500:]))
+        if not ok or not out or out[0].count("|") != 5:
+            for k in range(3):
+                nbad[k] += 1
+                details[k].append("shard %d failed to evaluate: %s" % (si, str(out)[-1500:]))
             continue
-        bad, n = out[0].split("|")
-        if int(n) != len(groups[si]):
-            nbad += 1
-            details.append("shard %d evaluated %s of %d cases" % (si, n, len(groups[si])))
-        for b in [x for x in bad.split(",") if x]:
-            nbad += 1
-            c, rp = groups[si][int(b)]
-            details.append("model and implementation disagree on %s `%s` (%s): impl %s" % (c["isa"], c["text"], kind_of(c), json.dumps(c["exp"])[:500]))
-            d = os.path.join(vlib.VERIF, "replays", ctx.prop)
-            os.makedirs(d, exist_ok=True)
-            with open(os.path.join(d, "disagree-%s-%d-%s.json" % (label, si, b)), "w") as f:
-                json.dump({"property": ctx.prop, "key": "correspondence", "replay": rp, "case": c}, f, default=str)
+        bad_old, bad_new, bad_rows, n_old, n_new, n_rows = out[0].split("|")
+        nrow += int(n_rows)
+        want_rows = sum(len(c["rowobs"]) for c, _ in groups[si])
+        for k, (n, want) in enumerate(((n_old, len(groups[si])), (n_new, len(groups[si])), (n_rows, want_rows))):
+            if int(n) != want:
+                nbad[k] += 1
+                details[k].append("shard %d evaluated %s of %d" % (si, n, want))
+        for k, bad in enumerate((bad_old, bad_new, bad_rows)):
+            for b in dict.fromkeys(x for x in bad.split(",") if x):
+                nbad[k] += 1
+                c, rp = groups[si][int(b)]
+                if k < 2:
+                    details[k].append("model (%s) and implementation disagree on %s `%s` (%s): impl %s"
+                                      % (kinds[k], c["isa"], c["text"], kind_of(c), json.dumps(c["exp"])[:500]))
+                else:
+                    details[k].append("Model/Rows.v and the implementation's get_load_throughput / get_store_throughput disagree on a memory "
+                                      "operand of %s `%s`: impl returned %s" % (c["isa"], c["text"], json.dumps(
+                                          [[o["ld"], o["st0"], o["st"]] for o in c["rowobs"]])[:700]))
+                save(si, b, c, rp, ["cost", "costrows", "rows"][k])
     ctx.obligation("correspondence %s: binary64 Model/Costing.v = assign_tp_lt bit for bit on %d costed lines" % (label, len(cases)),
-                   "correspondence", nbad == 0, "\n".join(details[:6]))
-    return nbad
+                   "correspondence", nbad[0] == 0, "\n".join(details[0][:6]))
+    ctx.obligation("correspondence %s: rows selected by Model/Rows.v from the raw tables, then Model/Costing.v = assign_tp_lt bit for bit on %d costed lines"
+                   % (label, len(cases)), "correspondence", nbad[1] == 0, "\n".join(details[1][:6]))
+    ctx.obligation("correspondence %s: Model/Rows.v get_load_throughput / get_store_throughput = the implementation's, row for row and bit for bit, "
+                   "on %d memory operands x {load, store, store with source register}" % (label, nrow),
+                   "correspondence", nbad[2] == 0, "\n".join(details[2][:6]))
+    ctx.coverage["row_lookups_" + label] = nrow
+    return sum(nbad)
 
 
 def hist_add(h, k):
@@ -250,6 +282,7 @@ def real(ctx):
                     f = parser.parse_line(text, 1)
                     sem.assign_src_dst(f)
                     c = C.cost_case(mm, sem, f, text=text, origin="shipped model " + a)
+                    c["yrows"] = R.yaml_rows_from_file(models.yaml_path(a))
                 except C.Unmodelled as e:
                     hist_add(unmod, "%s: %s" % (a, str(e)[:40]))
                     continue
@@ -298,6 +331,7 @@ def replay_cases(ctx, r):
     f = (ParserX86ATT() if isa == "x86" else ParserAArch64()).parse_line(r["text"], 1)
     sem.assign_src_dst(f)
     c = C.cost_case(mm, sem, f, text=r["text"], origin="shipped model " + r["arch"])
+    c["yrows"] = R.yaml_rows_from_file(models.yaml_path(r["arch"]))
     ctx.count()
     judge(ctx, c, r)
     return [(c, r)]
